@@ -12,7 +12,7 @@ RTOL = 1e-4
 RTOL_CCV = 1e-3     # >= 2 pwl segments: constrained cost variables, objective accurate to the interior-point tolerance only
 META = {
     "text": "Every OPF problem built from a 2-bus and a 3-bus (fused 4th bus) net (thorough: also a meshed 4-bus net with binding line limits) by making 1-2 (thorough 1-3) of {gen, sgen, load, storage, dcline} controllable and giving each of them and the ext_grid one cost entry from an alphabet of 18 kinds (poly c1 / c2,c1 / c2,c1,c0 / q-costs, pwl with 1 and 2 segments for p and q, coefficients from {-2,0,1,3}) is solved by the real runopp and rundcopp; on convergence res_cost is compared with the sum of the user's functions at each element's own reported power, and for convex DC problems with the exact optimum obtained by enumerating all active sets of the DC-OPF written down from the element tables.",
-    "note": "Trusted: mc/e_qp.py (numpy KKT solves of every active set; DC model from the documented element equations, lines only) and the cost bookkeeping in checks/C17.py. Cost-function convention: element's own variable (load/storage consumption positive, dcline power at the from bus); pwl f = slope_1*p on the first segment. Documented refusals/limitations (pwl mixed with quadratic, >1 pwl segment for loads/storages/q) are outcomes, not violations. Relative tolerance 1e-4.",
+    "note": "Trusted: mc/e_qp.py (numpy KKT solves of every active set; DC model from the documented element equations, lines only) and the cost bookkeeping in checks/C17.py. Cost-function convention: element's own variable (load/storage consumption positive, dcline power at the from bus); pwl f = slope_1*p on the first segment. Documented refusals/limitations (pwl mixed with quadratic, >1 pwl segment for loads/storages/q) are outcomes, not violations. Relative tolerance 1e-4 (1e-3 with >= 2 pwl segments) of the gross cost.",
     "technique": "bounded exhaustive input enumeration on the real OPF with a bookkeeping oracle and an exact active-set-enumeration reference optimum",
     "design_ref": "DESIGN.md §3 E1, §4 C17, §2.4 qp",
 }
@@ -316,18 +316,20 @@ def reference_problem(net, models=()):
     return variables, A, b, A_in, b_in, names, nc, const
 
 
-def _close(a, b, rtol=RTOL):
-    return abs(a - b) <= rtol * max(1., abs(a), abs(b))
+def _close(a, b, rtol=RTOL, scale=1.):
+    """scale: gross cost (sum of |entry values|) - the solver's accuracy is relative to the individual terms,
+    not to a total in which generation costs and feed-in revenues cancel"""
+    return abs(a - b) <= rtol * max(1., scale, abs(a), abs(b))
 
 
-def explain(net, dc, rc, uc, rtol):
+def explain(net, dc, rc, uc, rtol, scale=1.):
     """smallest set of recorded defect models whose exact recomputation reproduces the reported res_cost"""
     for r in range(1, len(DEFECTS) + 1):
         for ms in itertools.combinations(DEFECTS, r):
             pc, _ = user_cost(net, dc, ms)
-            if _close(rc, pc, rtol) and not _close(pc, uc, rtol):
+            if _close(rc, pc, rtol, scale) and not _close(pc, uc, rtol, scale):
                 # every model in the set must matter
-                if all(not _close(user_cost(net, dc, tuple(m for m in ms if m != d))[0], pc, rtol) for d in ms):
+                if all(not _close(user_cost(net, dc, tuple(m for m in ms if m != d))[0], pc, rtol, scale) for d in ms):
                     return ms
     return ()
 
@@ -342,12 +344,13 @@ def judge(net, where, case):
     rc = float(net.res_cost)
     uc, parts = user_cost(net, dc)
     rtol = RTOL_CCV if has_ccv(net) else RTOL
+    scale = sum(abs(p[4]) for p in parts)
     if documented_limitation(net):
         info["documented_limitation"] = 1
         return vs, info
     ms = ()
-    if not _close(rc, uc, rtol):
-        ms = explain(net, dc, rc, uc, rtol)
+    if not _close(rc, uc, rtol, scale):
+        ms = explain(net, dc, rc, uc, rtol, scale)
         toks = list(toks0) + ["explained=" + m for m in ms]
         vs.append(core.violation("res_cost_equals_user_cost", {"res_cost": rc, "user_cost": uc, "parts": parts,
                                                                  "defect_models": list(ms)},
@@ -364,9 +367,9 @@ def judge(net, where, case):
             info["qp"] = 1
             if len(b_in):
                 info["qp_with_line_limits"] = 1
-            if not _close(rc, opt, rtol):
+            if not _close(rc, opt, rtol, scale):
                 toks = list(toks0)
-                subopt = uc > opt + rtol * max(1., abs(opt))
+                subopt = uc > opt + rtol * max(1., scale, abs(opt))
                 toks.append("dispatch_suboptimal" if subopt else "dispatch_optimal")
                 if ms:
                     ok = not subopt
@@ -410,7 +413,7 @@ def explore(tier, seed):
     rep.extra["cases"] = len(cases)
     rep.extra["bound_k"] = 2 if tier == "quick" else 3
     core.run_cases(rep, run_case, cases)
-    rep.assumptions = ["relative tolerance 1e-4 on costs; only converged OPFs are judged",
+    rep.assumptions = ["tolerance 1e-4 (1e-3 when constrained cost variables are used: pwl with >= 2 segments) relative to max(1, sum of |cost entry values|); only converged OPFs are judged",
                        "DC optimum clause only for convex user costs (c2 >= 0, pwl slopes non-decreasing) on line-only nets",
                        "documented limitations (pwl q / load pwl with >1 segment) are counted, not judged",
                        "values outside the finite alphabets are not covered"]
